@@ -1,5 +1,6 @@
 """C08 — linearity verdict at form construction: correspondence with Model/Linear.lean and
-independent oracle (numeric additivity / homogeneity of the integrand on concrete instantiations)."""
+independent oracle (ground truth known by construction, cross-checked by numeric additivity /
+homogeneity of the integrand on concrete instantiations)."""
 import contextlib
 import io
 import json
@@ -10,19 +11,27 @@ from harness.exprser import Ser
 
 PID = 'C08'
 PROPS_MODULE = 'SympdeModel.Props.C08'
-RULE = ('integrands on Square/Cube for LinearForm / BilinearForm over scalar, vector and product arguments: sums of '
-        'linear terms (products with coefficient fields, Constants, rationals, coordinates; dx/dy, grad, div, curl, '
-        'laplace, dot, inner, cross with a field; boundary terms with the normal vector; domain + boundary sums), '
-        '45 % perturbed by one non-linear edit (constant term, square, product of the argument with itself / its '
-        'derivative / the other component of a product argument, sin / exp / sqrt of the argument, missing argument, '
-        'argument in a denominator).  One case = one constructor call; non-trivial = every case (the verdict is computed '
-        'by substitution, re-evaluation and expansion); distinct by request line')
+RULE = ('integrands on Square/Cube for LinearForm / BilinearForm over scalar, vector and product arguments (product '
+        'arguments with 2-3 scalar components, 2 vector components, and mixed ones): sums of linear terms (products with '
+        'coefficient fields, Constants, rationals, coordinates; dx/dy, grad, div, curl, laplace, dot, inner, cross with a '
+        'field; differences of two components of a product argument; boundary terms with the normal vector; domain + '
+        'boundary sums), about half of them perturbed by one non-linear edit (constant term, square, product of the '
+        'argument with itself / its derivative / another component of a product argument, sin / exp / sqrt of the '
+        'argument, argument in a denominator; edits that VANISH when two same-kind components of a product argument are '
+        'identified: a*(a-b), (op a - op b)**2, a**2/b, dot(A-B, A); integrands, or single integrals of a domain + '
+        'boundary sum, in which one argument group does not occur at all: no test function, no trial function, pure '
+        'coefficient / coordinate integrands).  A fixed corpus (u1*(u1-u2)*v1, f*(v1-v2)**2, x*y without test function, '
+        'x*v without trial function, ...) runs first on every seed.  One case = one constructor call; non-trivial = '
+        'every case (the verdict is computed by substitution, re-evaluation and expansion); distinct by request line')
 ASSUMPTIONS = [
     'the model compares by polynomial normal form over maximal non-arithmetic sub-terms (verified normaliser); sympy '
     'uses expand(): agreement of the two is what the correspondence checks',
     'substitution re-runs the operator constructors (Model/Calc.lean, property C02) and the linear part of dx / F[i]',
-    'ground truth of the oracle: additivity and homogeneity of the classical value of the integrand for two draws of '
-    'polynomial functions (joint linearity in all components of a product argument)',
+    'ground truth of the oracle: known by construction (a sum of terms each linear in one component of every argument '
+    'group is linear; one added term of a listed non-linear class, or the absence of an argument group, makes it '
+    'non-linear), and confirmed case by case by additivity and homogeneity of the classical value of the integrand '
+    'for two draws of polynomial functions (joint linearity in all components of a product argument; the components '
+    'get independent polynomials); a case on which the two disagree is not judged',
 ]
 MIN_NONTRIVIAL = 40
 
@@ -44,11 +53,11 @@ def mods():
 class World:
     count = 0
 
-    def __init__(self, rng, m):
+    def __init__(self, rng, m, dim=None):
         World.count += 1
         k = World.count
         self.m = m
-        self.dim = rng.choice([2, 2, 3])
+        self.dim = dim if dim is not None else rng.choice([2, 2, 3])
         self.domain = (m['Square'] if self.dim == 2 else m['Cube'])('Om08_%d' % k)
         self.bnd = self.domain.boundary
         self.faces = list(self.bnd.args)
@@ -58,11 +67,33 @@ class World:
         mk = lambda sp, names: [sp.element(n + sfx) for n in names]
         self.u, self.v, self.f, self.g = mk(self.V, ['u', 'v', 'f', 'g'])
         self.F, self.G, self.B = mk(self.W, ['F', 'G', 'B'])
+        # further components of product arguments, taken from the SAME spaces
+        self.ub, self.uc, self.vb, self.vc = mk(self.V, ['ub', 'uc', 'vb', 'vc'])
+        self.Fb, self.Gb = mk(self.W, ['Fb', 'Gb'])
         self.k1 = m['Constant']('kap' + sfx)
         self.nn = m['NormalVector']('nn')
         self.D1 = [m['dx'], m['dy'], m['dz']][:self.dim]
         from harness.inst import PHYS
         self.x = list(PHYS[:self.dim])      # the symbols dx, dy, dz differentiate with respect to
+
+    def group(self, side, shape):
+        """the components of an argument group: side 'test' | 'trial', shape a word over s (scalar), v (vector)"""
+        sc = [self.v, self.vb, self.vc] if side == 'test' else [self.u, self.ub, self.uc]
+        ve = [self.G, self.Gb] if side == 'test' else [self.F, self.Fb]
+        out, i, j = [], 0, 0
+        for ch in shape:
+            if ch == 's':
+                out.append(sc[i]); i += 1
+            else:
+                out.append(ve[j]); j += 1
+        return out
+
+
+SHAPES = ['s', 's', 's', 'v', 'v', 'sv', 'ss', 'ss', 'sss', 'vv', 'ssv', 'svv']
+
+
+def is_vec(a, m):
+    return isinstance(a, m['VectorFunction'])
 
 
 def coef(W, rng):
@@ -83,42 +114,95 @@ def lin_vector(W, rng, G):
     m = W.m
     opts = [m['dot'](G, W.B), m['div'](G), G[0], G[W.dim - 1], m['inner'](m['grad'](G), m['grad'](W.B)), rng.choice(W.D1)(G[0])]
     if W.dim == 3:
-        opts += [m['dot'](m['curl'](G), W.B), m['dot'](m['cross'](G, W.B), W.B + W.F) if False else m['dot'](m['curl'](G), m['curl'](W.B))]
+        opts += [m['dot'](m['curl'](G), W.B), m['dot'](m['curl'](G), m['curl'](W.B))]
     else:
         opts += [m['curl'](G), m['cross'](G, W.B)]
     return rng.choice(opts)
 
 
 def lin_of(W, rng, a):
-    return lin_vector(W, rng, a) if isinstance(a, W.m['VectorFunction']) else lin_scalar(W, rng, a)
+    return lin_vector(W, rng, a) if is_vec(a, W.m) else lin_scalar(W, rng, a)
+
+
+def same_op(W, rng, vec):
+    """ONE scalar-valued linear operator, to be applied to two different components of the same kind"""
+    m = W.m
+    d = rng.choice(W.D1)
+    if vec:
+        return rng.choice([lambda t: m['dot'](t, W.B), m['div'], lambda t: t[0], lambda t: t[W.dim - 1], lambda t: d(t[0])])
+    return rng.choice([lambda t: t, lambda t: t, d, m['laplace'], lambda t: m['dot'](W.B, m['grad'](t))])
+
+
+def same_kind_pairs(args, m):
+    return [(a, b) for a in args for b in args if a is not b and is_vec(a, m) == is_vec(b, m)]
+
+
+def lin_in_group(W, rng, args):
+    """a scalar expression linear in the argument group (jointly): one component, or — for a product argument with two
+    components of the same kind — sometimes the difference of the same operator on two of them"""
+    pairs = same_kind_pairs(args, W.m)
+    if pairs and rng.random() < 0.3:
+        a, b = rng.choice(pairs)
+        op = same_op(W, rng, is_vec(a, W.m))
+        return op(a) - rng.choice([1, 1, 2]) * op(b)
+    return lin_of(W, rng, rng.choice(args))
+
+
+def diagonal_edit(W, rng, pair, other):
+    """(label, term): not linear in the pair (a, b) of DIFFERENT components of one product argument, but linear (mostly
+    zero) as soon as a and b are identified"""
+    m = W.m
+    a, b = pair
+    vec = is_vec(a, m)
+    op = same_op(W, rng, vec)
+    k = rng.random()
+    if k < 0.30:
+        return 'diag:difference-product', rng.choice([op(a), op(b), lin_of(W, rng, a)]) * (op(a) - op(b)) * other
+    if k < 0.55:
+        return 'diag:difference-square', coef(W, rng) * (op(a) - op(b)) ** 2 * other
+    if k < 0.70:
+        if vec:
+            return 'diag:difference-dot', m['dot'](a - b, rng.choice([a, b, a - b])) * other
+        return 'diag:difference-product', (a - b) * lin_of(W, rng, rng.choice([a, b])) * other
+    if k < 0.85:
+        p, q = (a[0], b[0]) if vec else (a, b)
+        return 'diag:ratio', p ** 2 / q * other
+    op2 = same_op(W, rng, vec)
+    return 'diag:difference-product', (op(a) - op(b)) * (op2(a) - op2(b)) * other
 
 
 def nonlinear_edit(W, rng, args, others):
-    """(label, extra term or None, replace-all?) — a term that is not linear in `args` (jointly)"""
+    """(label, extra term) — a term that is not linear in `args` (jointly); it is linear in the other group"""
     m = W.m
     a = rng.choice(args)
-    vec = isinstance(a, m['VectorFunction'])
-    prod_other = 1
-    for o in others:
-        prod_other = prod_other * lin_of(W, rng, o)
+    vec = is_vec(a, m)
+    prod_other = lin_in_group(W, rng, others) if others else 1
+    pairs = same_kind_pairs(args, m)
+    if pairs and rng.random() < 0.45:
+        return diagonal_edit(W, rng, rng.choice(pairs), prod_other)
+    if len(args) >= 2 and rng.random() < 0.2:
+        b = rng.choice([x for x in args if x is not a])
+        if vec and is_vec(b, m) and rng.random() < 0.5:
+            return 'product-of-components', m['dot'](a, b) * prod_other
+        return 'product-of-components', lin_of(W, rng, a) * lin_of(W, rng, b) * prod_other
     la = lin_of(W, rng, a)
     k = rng.random()
-    if k < 0.14:
+    if k < 0.16:
         return 'constant', rng.choice([1, W.f, W.k1, W.f * W.x[0]]) * prod_other
-    if k < 0.28:
+    if k < 0.30:
         return 'square', la ** 2 * prod_other
-    if k < 0.42:
+    if k < 0.46:
         lb = lin_of(W, rng, a)
         return 'self-product', la * lb * prod_other
-    if k < 0.52:
+    if k < 0.56:
         return 'sin', m['sin'](la) * prod_other
-    if k < 0.60:
+    if k < 0.64:
         return 'exp', m['exp'](la) * prod_other
-    if k < 0.66:
+    if k < 0.70:
         return 'sqrt', m['sqrt'](la ** 2 + 1) * prod_other
-    if k < 0.74:
+    if k < 0.78:
         return 'denominator', prod_other * W.f / (la + 2)
-    if k < 0.80:
+    if k < 0.86:
         # homogeneous of degree one, not additive: only the additivity test can reject it
         d = rng.choice(W.D1)
         if vec:
@@ -126,31 +210,57 @@ def nonlinear_edit(W, rng, args, others):
         else:
             p, q = rng.choice([(a, d(a)), (d(a), a), (d(a), d(d(a)))])
         return 'ratio', p ** 2 / q * prod_other
-    if k < 0.88 and len(args) >= 2:
-        b = [x for x in args if x is not a][0]
-        return 'cross-product-of-components', lin_of(W, rng, a) * lin_of(W, rng, b) * prod_other
     return 'cube', la ** 3 * prod_other
 
 
+def free_of_args(W, rng):
+    """a non-zero scalar expression without any argument: coordinates, coefficient fields, constants"""
+    m = W.m
+    return rng.choice([W.x[0] * W.x[1], W.f, W.f * W.x[0], W.k1, W.k1 * W.x[1] + 1, m['div'](W.B) * W.f,
+                       m['dot'](W.B, m['grad'](W.f)), W.g + 1, m['S'].One, W.x[0] ** 2])
+
+
+def bnd_factor(W, a):
+    return W.m['dot'](a, W.nn) if is_vec(a, W.m) else a
+
+
+def argfree_case(W, rng, bilinear, tests, trials):
+    """an expression in which one whole argument group does not occur (constant in it, hence not linear)"""
+    m = W.m
+    integral = m['integral']
+    if not bilinear:
+        missing, present = 'test', []
+    else:
+        missing, present = rng.choice([('trial', tests), ('trial', tests), ('test', trials), ('both', [])])
+
+    def body():
+        if not present:
+            return free_of_args(W, rng)
+        return sum((coef(W, rng) * lin_in_group(W, rng, present) for _ in range(rng.choice([1, 1, 2]))), m['S'].Zero)
+    expr = integral(W.domain, body())
+    if rng.random() < 0.35:
+        bt = m['S'](rng.choice([1, W.f, W.k1])) * (bnd_factor(W, rng.choice(present)) if present else rng.choice([1, W.f, m['dot'](W.B, W.nn)]))
+        expr = expr + integral(W.bnd if rng.random() < 0.5 else rng.choice(W.faces), bt)
+    return expr, 'argfree:no-%s' % missing
+
+
 def make_case(W, rng):
-    """returns dict(kind, args…, expr, label) — the integral expression of a candidate form"""
+    """returns dict(kind, args…, expr, label) — the integral expression of a candidate form; `label` is the ground truth
+    by construction: 'linear', or the class of the one edit that makes the integrand non-linear"""
     m = W.m
     integral = m['integral']
     bilinear = rng.random() < 0.5
-    shape = rng.choice(['scalar', 'scalar', 'vector', 'product'])
-    if shape == 'scalar':
-        tests, trials = [W.v], [W.u]
-    elif shape == 'vector':
-        tests, trials = [W.G], [W.F]
-    else:
-        tests, trials = [W.v, W.G], [W.u, W.F]
-    if not bilinear:
-        trials = []
+    tests = W.group('test', rng.choice(SHAPES))
+    trials = W.group('trial', rng.choice(SHAPES)) if bilinear else []
+
+    if rng.random() < 0.08:
+        expr, label = argfree_case(W, rng, bilinear, tests, trials)
+        return dict(bilinear=bilinear, trials=trials, tests=tests, expr=expr, label=label)
 
     def term():
-        t = coef(W, rng) * lin_of(W, rng, rng.choice(tests))
+        t = coef(W, rng) * lin_in_group(W, rng, tests)
         if bilinear:
-            t = t * lin_of(W, rng, rng.choice(trials))
+            t = t * lin_in_group(W, rng, trials)
         return t
 
     body = sum((term() for _ in range(rng.choice([1, 2, 2, 3]))), m['S'].Zero)
@@ -167,15 +277,81 @@ def make_case(W, rng):
     k = rng.random()
     if k < 0.3:
         a = rng.choice(tests)
-        bt = (m['dot'](a, W.nn) if isinstance(a, m['VectorFunction']) else a) * rng.choice([1, W.k1, W.f])
+        bt = bnd_factor(W, a) * rng.choice([1, W.k1, W.f])
         if bilinear:
-            b = rng.choice(trials)
-            bt = bt * (m['dot'](b, W.nn) if isinstance(b, m['VectorFunction']) else b)
-        if label == 'linear' and rng.random() < 0.15:
-            bt = bt + rng.choice([1, W.f])
-            label = 'boundary:constant'
+            bt = bt * bnd_factor(W, rng.choice(trials))
+        if label == 'linear':
+            r = rng.random()
+            pairs = same_kind_pairs(tests, m)
+            if r < 0.12:
+                bt = bt + rng.choice([1, W.f])
+                label = 'boundary:constant'
+            elif r < 0.20 and bilinear:
+                # one integral of the sum lacks the trial functions
+                bt = bnd_factor(W, a) * rng.choice([1, W.k1, W.f, W.x[0]])
+                label = 'boundary:argfree:no-trial'
+            elif r < 0.32 and pairs:
+                p, q = rng.choice(pairs)
+                bt = bnd_factor(W, p) * (bnd_factor(W, p) - bnd_factor(W, q))
+                if bilinear:
+                    bt = bt * bnd_factor(W, rng.choice(trials))
+                label = 'boundary:test:diag:difference-product'
         expr = expr + integral(W.bnd if rng.random() < 0.5 else rng.choice(W.faces), bt)
     return dict(bilinear=bilinear, trials=trials, tests=tests, expr=expr, label=label)
+
+
+def corpus_cases(W):
+    """the fixed corpus: the same shapes on every seed (first cases of both streams)"""
+    m = W.m
+    I = lambda e: m['integral'](W.domain, e)
+    Ib = lambda e: m['integral'](W.bnd, e)
+    grad, dot, div = m['grad'], m['dot'], m['div']
+    u1, u2, u3, v1, v2, v3 = W.u, W.ub, W.uc, W.v, W.vb, W.vc
+    F1, F2, G1, G2 = W.F, W.Fb, W.G, W.Gb
+    f, B, x, y = W.f, W.B, W.x[0], W.x[1]
+    dx = W.D1[0]
+    L = lambda tests, e, lab: dict(bilinear=False, trials=[], tests=tests, expr=e, label=lab)
+    Bi = lambda trials, tests, e, lab: dict(bilinear=True, trials=trials, tests=tests, expr=e, label=lab)
+    return [
+        # non-linear in a product argument, vanishing when its two components are identified
+        Bi([u1, u2], [v1, v2], I(u1 * (u1 - u2) * v1), 'trial:diag:difference-product'),
+        L([v1, v2], I(f * (v1 - v2) ** 2), 'test:diag:difference-square'),
+        Bi([u1, u2], [v1, v2], I((u1 - u2) * dot(grad(u1), grad(v1)) + u2 * v2), 'trial:diag:difference-product'),
+        L([v1, v2], I(x * v1) + Ib(v1 * (v1 - v2)), 'boundary:test:diag:difference-product'),
+        L([v1, v2], I(v1 ** 2 / v2), 'test:diag:ratio'),
+        Bi([u1, u2], [v1, v2], I(u1 * v1 * (v1 - v2)), 'test:diag:difference-product'),
+        L([v1, v2, v3], I((v1 - v2) * (v2 - v3)), 'test:diag:difference-product'),
+        L([v1, v2, v3], I(f * (dx(v3) - dx(v1)) ** 2 + v2), 'test:diag:difference-square'),
+        L([G1, G2], I(dot(G1 - G2, G1)), 'test:diag:difference-dot'),
+        Bi([F1, F2], [G1, G2], I((div(F1) - div(F2)) * div(F1) * dot(G1, B)), 'trial:diag:difference-product'),
+        L([v1, v2, G1], I(dot(G1, B) * (v1 - v2) + v1 * (v2 - v1)), 'test:diag:difference-product'),
+        L([v1, G1, G2], I((G1[0] - G2[0]) ** 2 + v1), 'test:diag:difference-square'),
+        # non-linear in a product argument, also on the diagonal
+        Bi([u1, u2], [v1, v2], I(u1 * u2 * v1), 'trial:product-of-components'),
+        L([G1, G2], I(dot(G1, G2)), 'test:product-of-components'),
+        L([v1, G1], I(v1 * div(G1)), 'test:product-of-components'),
+        # an argument group does not occur at all
+        L([v1], I(x * y), 'argfree:no-test'),
+        Bi([u1], [v1], I(x * v1), 'argfree:no-trial'),
+        L([G1], I(f * div(B)), 'argfree:no-test'),
+        Bi([F1], [G1], I(f * F1[0]) + Ib(F1[1]), 'argfree:no-test'),
+        Bi([u1, u2], [v1, v2], I(f * (v1 - v2)) + Ib(v2), 'argfree:no-trial'),
+        Bi([u1], [v1], I(f * x), 'argfree:no-both'),
+        L([v1, v2], I(f) + Ib(m['S'].One), 'argfree:no-test'),
+        # … in one integral of a sum only
+        Bi([u1], [v1], I(u1 * v1) + Ib(x * v1), 'boundary:argfree:no-trial'),
+        L([v1], I(x * v1 + 1), 'test:constant'),
+        # linear controls
+        Bi([u1, u2], [v1, v2], I(u1 * v1 + dot(grad(u2), grad(v2))), 'linear'),
+        Bi([u1, u2], [v1, v2], I(x * f * (u1 - u2) * v1) + Ib(u2 * v2), 'linear'),
+        L([v1, v2], I(f * v1 + y * dot(B, grad(v2))), 'linear'),
+        L([v1, v2, v3], I(v1 - 2 * v2 + f * dx(v3)), 'linear'),
+        Bi([u1, u2, u3], [v1], I((u1 - u2) * v1 + dx(u3) * dx(v1)), 'linear'),
+        Bi([F1, F2], [G1, G2], I(dot(F1, G1) + div(F2) * div(G2) + dot(F1 - F2, G2)), 'linear'),
+        L([v1, v2, G1], I(f * (v1 - v2) + dot(G1, B)), 'linear'),
+        Bi([u1, F1, F2], [v1, G1, G2], I(u1 * div(G1) + (F1[0] - F2[0]) * v1 + dot(F2, G2)), 'linear'),
+        Bi([u1], [v1], I(u1 * v1 + dot(grad(u1), grad(v1))) + Ib(u1 * v1), 'linear'),
+    ]
 
 
 def int_list(x, m):
@@ -213,13 +389,20 @@ def request(ser, W, case, m):
 def stream(stage, tier, seed, n, m):
     """the deterministic sequence of candidate forms of one stage: (index, world, case | None, error | None).
     It depends on (stage, tier, seed) only, so that a replay file (which records them and the index)
-    identifies its input exactly."""
+    identifies its input exactly.  The first cases are the fixed corpus (a 2D and a 3D world), independent of the seed."""
     import random
     rng = random.Random('C08/%s/%s/%s' % (stage, tier, seed))
     World.count = {'corr': 0, 'oracle': 50000}[stage]
+    fixed = []
+    for dim in (2, 3):
+        Wc = World(None, m, dim=dim)
+        fixed += [(Wc, c) for c in corpus_cases(Wc)]
     W = None
     for i in range(n):
-        if i % 10 == 0:
+        if i < len(fixed):
+            yield i, fixed[i][0], fixed[i][1], None
+            continue
+        if i % 10 == 0 or W is None:
             W = World(rng, m)
         try:
             case = make_case(W, rng)
@@ -227,6 +410,22 @@ def stream(stage, tier, seed, n, m):
             yield i, W, None, e
             continue
         yield i, W, case, None
+
+
+N_CORPUS = 66      # 2 worlds x len(corpus_cases)
+
+
+def built_class(label):
+    """'linear' or the class of the edit, without the side it was applied to"""
+    for pre in ('boundary:', 'test:', 'trial:'):
+        if label.startswith(pre):
+            label = label[len(pre):]
+    return label
+
+
+def group_shape(case, m):
+    w = lambda g: ''.join('v' if is_vec(a, m) else 's' for a in g)
+    return ('trial:' + w(case['trials']) + '|' if case['bilinear'] else '') + 'test:' + w(case['tests'])
 
 
 def impl_answer(verdict):
@@ -239,7 +438,7 @@ def correspondence(ctx):
     m = mods()
     c = Corr()
     ser = Ser()
-    n = 4000 if ctx.thorough else 600
+    n = (4000 if ctx.thorough else 600) + N_CORPUS
     cases = []
     for i, W, case, err in stream('corr', ctx.tier, ctx.seed, n, m):
         if case is None:
@@ -253,13 +452,16 @@ def correspondence(ctx):
         except Exception as e:
             c.count('unserialisable:' + type(e).__name__)
             continue
-        cases.append((line, verdict, case['label'], str(case['expr'])[:300], case['bilinear'], i))
+        cases.append((line, verdict, case['label'], str(case['expr'])[:300], case['bilinear'], i,
+                      group_shape(case, m)))
     outs = ctx.driver.run([x[0] for x in cases])
-    for (line, verdict, label, shown, bil, i), out in zip(cases, outs):
+    for (line, verdict, label, shown, bil, i, case_shape), out in zip(cases, outs):
         c.evaluations += 1
         impl = impl_answer(verdict)
         c.count('verdict:' + verdict)
-        c.count('built:' + label.split(':')[-1] if label != 'linear' else 'built:linear')
+        c.count('built:' + built_class(label))
+        for sh in case_shape.split('|'):
+            c.count('args:' + sh)
         c.count('form:' + ('bilinear' if bil else 'linear'))
         if out != impl:
             c.disagreements.append({'input': {'line': line[:2500], 'expr': shown, 'label': label, 'op': 'verdict',
@@ -300,27 +502,65 @@ def rich_poly(rng, xs):
     return e + sum(x ** 4 for x in xs)
 
 
+class NotRational(Exception):
+    pass
+
+
+def exact_eval(e, pt, memo):
+    """the value (a Fraction) of a rational expression at the rational point pt; NotRational otherwise"""
+    from fractions import Fraction
+    k = id(e)
+    if k in memo:
+        return memo[k][1]
+    if e.is_Rational:
+        r = Fraction(int(e.p), int(e.q))
+    elif e.is_Symbol:
+        if e not in pt:
+            raise NotRational('symbol %s' % e)
+        r = pt[e]
+    elif e.is_Add:
+        r = Fraction(0)
+        for t in e.args:
+            r += exact_eval(t, pt, memo)
+    elif e.is_Mul:
+        r = Fraction(1)
+        for t in e.args:
+            r *= exact_eval(t, pt, memo)
+    elif e.is_Pow and e.exp.is_Integer:
+        r = exact_eval(e.base, pt, memo) ** int(e.exp)       # ZeroDivisionError at a pole
+    else:
+        raise NotRational(type(e).__name__)
+    memo[k] = (e, r)
+    return r
+
+
 def close(a, b, xs, rng):
-    """a == b (scalars), decided at two random rational points"""
+    """a == b (scalars), decided at two random rational points: exactly (rational arithmetic) when both are rational
+    expressions, with 120 digits otherwise; None = undecided"""
     import sympy
-    d = sympy.sympify(a) - sympy.sympify(b)
-    if d == 0:
+    from fractions import Fraction
+    from harness.inst import numeval
+    a, b = sympy.sympify(a), sympy.sympify(b)
+    if a == b:
         return True
     for _ in range(2):
-        pt = {x: sympy.Rational(rng.randint(2, 30), rng.randint(7, 13)) for x in xs}
-        v = d.subs(pt)
-        if v.is_Rational:
-            if v != 0:
+        p, q = [rng.randint(2, 30) for _ in xs], [rng.randint(7, 13) for _ in xs]
+        try:
+            pt = {x: Fraction(pi, qi) for x, pi, qi in zip(xs, p, q)}
+            memo = {}
+            if exact_eval(a, pt, memo) != exact_eval(b, pt, memo):
                 return False
             continue
+        except NotRational:
+            pass
+        except ZeroDivisionError:
+            return None
         try:
-            n = sympy.N(v, 40)
-            s = sympy.N(sympy.sympify(a).subs(pt), 40)
+            pt = {x: sympy.Rational(pi, qi) for x, pi, qi in zip(xs, p, q)}
+            va, vb = numeval(a, pt), numeval(b, pt)
         except Exception:
             return None
-        if not n.is_number or n.is_finite is not True:
-            return None
-        if abs(n) > sympy.Float('1e-25') * (1 + abs(s)):
+        if abs(va - vb) > 1e-60 * (1 + abs(va) + abs(vb)):
             return False
     return True
 
@@ -383,7 +623,7 @@ def judged(W, case, i, m):
 def oracle(ctx, factor, seeds):
     m = mods()
     o = Oracle()
-    n = (1800 if ctx.thorough else 200) * factor
+    n = (1800 if ctx.thorough else 200) * factor + N_CORPUS
     for i, W, case, err in stream('oracle', ctx.tier, ctx.seed, n, m):
         if case is None:
             o.count('unbuildable:' + type(err).__name__)
@@ -402,8 +642,15 @@ def oracle(ctx, factor, seeds):
         if t is None:
             o.count('truth-undecided')
             continue
+        if t != (case['label'] == 'linear'):
+            # the numeric verdict contradicts the construction: the case is not judged (a defect of the generator,
+            # never of the code under test); visible in the histogram
+            o.count('construction-contradicted:' + case['label'])
+            continue
         o.count('truth:%s:constructor:%s' % ('linear' if t else 'non-linear', verdict))
         o.count('built:' + case['label'])
+        for sh in group_shape(case, m).split('|'):
+            o.count('args:' + sh)
         if t and verdict != 'ok':
             o.fail('false-reject:' + str(case['expr'])[:300],
                    'the integrand %s is additive and homogeneous in %s%s but the constructor raises the linearity error' % (
@@ -463,8 +710,8 @@ def replay(ctx, path):
         print('REPLAY: still raising %s' % verdict)
         return 1
     t = judged(W, case, index, m)
-    print('REPLAY: semantic verdict (additive and homogeneous on polynomial instances): %s' % t)
-    if t is not None and t != (verdict == 'ok'):
+    print('REPLAY: built as: %s; semantic verdict (additive and homogeneous on polynomial instances): %s' % (case['label'], t))
+    if t is not None and t == (case['label'] == 'linear') and t != (verdict == 'ok'):
         print('REPLAY: still failing')
         return 1
     print('REPLAY: the recorded case no longer fails')
